@@ -405,6 +405,6 @@ SUBS = [
 
 MANIFEST = {
     "technique": "exhaustive enumeration of all constraint trees of depth<=2 over 3 names and of all NOT/AND/OR trees of depth<=3 over 2 names, the family of nested XOR/EQUIVALENCE trees + Hypothesis random deeper/arithmetic trees; oracle = complete truth tables and a reference kind classifier",
-    "level_text": "Every logical tree of depth <= 2 over {A,B,C} is decided exhaustively (thorough; quick takes all depth<=1 trees and a seeded 1/8 slice of depth 2), every NOT/AND/OR tree of depth <= 3 over {A,B} likewise (thorough; quick a 1/24 slice), deeper and arithmetic/aggregate trees by random search. Equivalences are exact (truth tables). Absence of violations is established only inside the enumerated domain.",
+    "level_text": "Every logical tree of depth <= 2 over {A,B,C} is decided exhaustively (thorough; quick takes all depth<=1 trees and a seeded 1/8 slice of depth 2), every NOT/AND/OR tree of depth <= 3 over {A,B} likewise (thorough; quick a 1/24 slice), deeper and arithmetic/aggregate trees by random search. Equivalences are exact (truth tables). Absence of violations is established only inside the enumerated domain. Also: all 16 384 trees nesting XOR/EQUIVALENCE in each other, bipartite constraints of up to 2 048 (4 096) clauses around round thresholds, the same Constraint object re-queried after its formula was replaced, pseudo/strict reports compared with the split and with a 16-member family of textbook clause transformations (one-way). A sample of every sub-check additionally runs in a `python -OO` child with the root logger at DEBUG.",
     "level_note": "Trusted: vf/logic.py truth-table semantics (REQUIRES=IMPLIES, EXCLUDES=not both), the reference kind classifier, Hypothesis. Names inside aggregate calls are not demanded from get_features.",
 }
